@@ -526,8 +526,18 @@ func drawC20(t *rapid.T) C20Case {
 		ds = append(ds, price(c))
 	}
 	n := 0
+	pos := map[[2]string]*big.Rat{} // (account, commodity) → quantity held, for full divestments
+	addPos := func(acc, com string, x *big.Rat) {
+		k := [2]string{acc, com}
+		if pos[k] == nil {
+			pos[k] = new(big.Rat)
+		}
+		pos[k].Add(pos[k], x)
+	}
 	trx := func(cr, dr, q, com string, perf bool) {
 		n++
+		addPos(cr, com, ref.Neg(ref.R(q)))
+		addPos(dr, com, ref.R(q))
 		d := ref.Directive{Kind: ref.KTrx, Date: day, Desc: fmt.Sprintf("t%d", n), Bookings: []ref.Booking{{Credit: cr, Debit: dr, Qty: q, Com: com}}}
 		if perf {
 			d.HasPerf = true
@@ -541,7 +551,22 @@ func drawC20(t *rapid.T) C20Case {
 	steps := rapid.IntRange(2, 10).Draw(t, "steps")
 	for s := 0; s < steps; s++ {
 		day += ref.Day(rapid.SampledFrom([]int{1, 3, 9, 17, 26, 31, 45, 70}).Draw(t, "gap"))
-		switch rapid.SampledFrom([]string{"price", "price", "price", "deposit", "deposit", "withdraw", "buy", "transfer", "loan", "expense"}).Draw(t, "event") {
+		switch rapid.SampledFrom([]string{"price", "price", "price", "deposit", "deposit", "withdraw", "buy", "transfer", "loan", "expense", "divest", "divest"}).Draw(t, "event") {
+		case "divest":
+			// give away / sell a whole position: its value goes to exactly zero on that day
+			var held [][2]string
+			for k, q := range pos {
+				if ref.IsAL(k[0]) && q.Sign() > 0 && k[1] != v {
+					held = append(held, k)
+				}
+			}
+			sort.Slice(held, func(i, j int) bool { return held[i][0]+held[i][1] < held[j][0]+held[j][1] })
+			if len(held) == 0 {
+				ds = append(ds, price(rapid.SampledFrom(others).Draw(t, "pc")))
+				break
+			}
+			k := held[rapid.IntRange(0, len(held)-1).Draw(t, "divestWhich")]
+			trx(k[0], rapid.SampledFrom([]string{"Equity:Equity", "Expenses:Fees"}).Draw(t, "divestTo"), ref.DecString(pos[k]), k[1], false)
 		case "price":
 			ds = append(ds, price(rapid.SampledFrom(others).Draw(t, "pc")))
 		case "deposit":
@@ -591,12 +616,32 @@ func drawC20Weights(t *rapid.T) C20Case {
 			cl := rapid.SampledFrom(classes).Draw(t, "class")
 			c.Universe[cl] = append(c.Universe[cl], com)
 		}
+		if len(all) >= 2 && rapid.IntRange(0, 2).Draw(t, "leafIsGroup") == 0 {
+			// a class path that coincides with another entry's class + commodity: the node P:X is a leaf (commodity X)
+			// and a group (class P:X holding Y) at the same time
+			x, y := all[0], all[len(all)-1]
+			for cl, coms := range c.Universe {
+				var keep []string
+				for _, cm := range coms {
+					if cm != x && cm != y {
+						keep = append(keep, cm)
+					}
+				}
+				if len(keep) == 0 {
+					delete(c.Universe, cl)
+				} else {
+					c.Universe[cl] = keep
+				}
+			}
+			c.Universe["Cash"] = append(c.Universe["Cash"], x)
+			c.Universe["Cash:"+x] = []string{y}
+		}
 		if len(c.Universe) == 0 {
 			c.Universe = nil // an empty universe file is rejected (EOF); not this property's business
 		}
 	}
 	if rapid.IntRange(0, 2).Draw(t, "mapping") == 0 {
-		c.Mapping = rapid.SampledFrom([]string{"1", "1,.", "2,Equities", "1,Other", "1:1,.", "1,nomatch"}).Draw(t, "mappingV")
+		c.Mapping = rapid.SampledFrom([]string{"1", "1,.", "2,Equities", "1,Other", "1:1,.", "1,nomatch", "1," + all[0] + "$", "1," + all[len(all)-1] + "$", "2," + all[0]}).Draw(t, "mappingV")
 	}
 	if rapid.IntRange(0, 3).Draw(t, "comFilter") == 0 {
 		c.ComFilter = rapid.SampledFrom([]string{"^" + all[0] + "$", "A|B|C", "."}).Draw(t, "comFilterV")
